@@ -27,7 +27,7 @@ NSHARDS = {"quick": 16, "thorough": 16}
 FIELDS = ["name", "grid_n", "n_mazes", "maze_ctor", "maze_ctor_kwargs", "endpoint_kwargs", "seed", "applied_filters"]
 THRESHOLDS = {"quick": {"c18:roundtrip": 2000, "c18:roundtrip-json": 2000, "c18:hash-cross-process": 2000, "c18:hashseeds": 3,
                         **{f"c18:pair:{f}": 100 for f in FIELDS}, "c18:fname": 2000, "c18:collection-cfg": 50,
-                        "c18:in-place": 500, "c18:eq": 500, "c18:tuples-restored:endpoint": 300, "c18:tuples-restored:filters": 300, "c18:gen:gen_dfs": 1,
+                        "c18:in-place": 500, "c18:in-place:container-edit": 100, "c18:eq": 500, "c18:tuples-restored:endpoint": 300, "c18:tuples-restored:filters": 300, "c18:gen:gen_dfs": 1,
                         "c18:gen:gen_wilson": 1, "c18:gen:gen_percolation": 1, "c18:gen:gen_dfs_percolation": 1, "c18:gen:gen_prim": 1}}
 THRESHOLDS["thorough"] = dict(THRESHOLDS["quick"])
 ANCHORS = ["maze_dataset.dataset.maze_dataset:_load_maze_ctor", "maze_dataset.dataset.dataset:_load_applied_filters",
@@ -243,15 +243,25 @@ def run(ctx):
             h_a, f_a = int(cfg.stable_hash_cfg()), cfg.to_fname()
             ctx.check(int(cfg.stable_hash_cfg()) == h_a and cfg.to_fname() == f_a, "C18/hash-or-fname-not-repeatable", "", case)
             fresh = make_cfg(s2)
+            container_edit = (t // len(FIELDS)) % 2 == 0  # edit the existing list/dict object instead of assigning a new one
             if field == "maze_ctor":
                 cfg.maze_ctor = GENERATORS_MAP[s2["maze_ctor"]]
             elif field == "endpoint_kwargs":
-                cfg.endpoint_kwargs = fresh.endpoint_kwargs
+                if container_edit:
+                    cfg.endpoint_kwargs.clear(); cfg.endpoint_kwargs.update(fresh.endpoint_kwargs); ctx.tally("c18:in-place:container-edit")
+                else:
+                    cfg.endpoint_kwargs = fresh.endpoint_kwargs
             elif field == "applied_filters":
-                # the way the filter wrapper records provenance: appended / replaced on the existing object
-                cfg.applied_filters = list(fresh.applied_filters) if t % 2 else cfg.applied_filters[:0] + list(fresh.applied_filters)
+                # the way the filter wrapper records provenance: appended to the existing list
+                if container_edit:
+                    del cfg.applied_filters[:]; cfg.applied_filters.extend(fresh.applied_filters); ctx.tally("c18:in-place:container-edit")
+                else:
+                    cfg.applied_filters = list(fresh.applied_filters)
             elif field == "maze_ctor_kwargs":
-                cfg.maze_ctor_kwargs = copy.deepcopy(s2["maze_ctor_kwargs"])
+                if container_edit:
+                    cfg.maze_ctor_kwargs.clear(); cfg.maze_ctor_kwargs.update(copy.deepcopy(s2["maze_ctor_kwargs"])); ctx.tally("c18:in-place:container-edit")
+                else:
+                    cfg.maze_ctor_kwargs = copy.deepcopy(s2["maze_ctor_kwargs"])
             else:
                 setattr(cfg, field, s2[field])
             ctx.ev(); ctx.tally("c18:in-place"); ctx.tally(f"c18:in-place:{field}")
